@@ -134,11 +134,9 @@ func init() {
 		if tr, ok := e.tokenOf[sliceKey(data)]; ok && tr.n == len(data) {
 			doc = tr.doc
 		}
-		// write plans apply to the next write of any file (natively: a process-wide RLIMIT_FSIZE)
+		// a write plan is a file-size limit in force for every write until verifFSWriteUnlimit
+		// (natively: a process-wide RLIMIT_FSIZE); mode 2 kills the process at the first cut write
 		plan := e.writePlans["*"]
-		if len(plan) > 0 {
-			e.writePlans["*"] = plan[1:]
-		}
 		n := len(data)
 		if len(plan) > 0 && plan[0].mode != 0 {
 			// the write stops after k bytes, 0 <= k <= n; the file was truncated first
@@ -156,10 +154,10 @@ func init() {
 			}
 			nf := &fsFile{data: append([]value(nil), data[:k]...), doc: doc}
 			e.files[path] = nf
-			if plan[0].mode == 2 {
-				panic(targetPanic{iface{i.runtimeErrorString, "verif: process killed during write of " + path}})
-			}
 			if k < n {
+				if plan[0].mode == 2 {
+					panic(targetPanic{iface{i.runtimeErrorString, "verif: process killed during write of " + path}})
+				}
 				return i.pathError("write", path, enospc)
 			}
 			return iface{}
@@ -346,7 +344,7 @@ func sliceKey(s []value) *value {
 func (e *envModel) marshal(format string, v value) []value {
 	e.nextDoc++
 	obj := deepCopy(v)
-	doc := &docToken{id: e.nextDoc, fmt: format, obj: obj, size: 6}
+	doc := &docToken{id: e.nextDoc, fmt: format, obj: obj, size: 4 + 2*docEntries(obj)}
 	data := make([]value, doc.size, doc.size+1)
 	tag := uint8('Y')
 	if format == "json" {
@@ -655,9 +653,10 @@ func (i *interpreter) decideBools(v value) value {
 // ---- *os.File (read side) ----
 
 type openFile struct {
-	path string
-	data []value
-	pos  int
+	path     string
+	data     []value
+	pos      int
+	writable bool
 }
 
 func (i *interpreter) fileObj(p value) *openFile {
@@ -788,4 +787,146 @@ func init() {
 		}
 		return tuple{out, iface{}}
 	}
+}
+
+// docEntries: number of top-level list entries of an encoded value (the list itself, or the
+// first slice field of a struct / pointed-to struct), so that documents with fewer entries are shorter.
+func docEntries(v value) int {
+	switch x := v.(type) {
+	case []value:
+		return len(x)
+	case iface:
+		return docEntries(x.v)
+	case *value:
+		if x == nil {
+			return 0
+		}
+		return docEntries(*x)
+	case structure:
+		for _, f := range x {
+			if sl, ok := f.([]value); ok {
+				return len(sl)
+			}
+		}
+	}
+	return 0
+}
+
+// ---- os.OpenFile and the write side of *os.File ----
+
+const (
+	oWRONLY = 0x1
+	oRDWR   = 0x2
+	oAPPEND = 0x400
+	oCREATE = 0x40
+	oEXCL   = 0x80
+	oTRUNC  = 0x200
+)
+
+func init() {
+	externals["os.OpenFile"] = func(fr *frame, a []value) value {
+		i := fr.i
+		e := i.env
+		path := pathArg(i, a[0])
+		flags := int(asInt64(a[1]))
+		osp := i.prog.ImportedPackage("os")
+		nilFile := (*value)(nil)
+		fl := e.file(path)
+		if fl != nil && fl.isDir {
+			return tuple{nilFile, i.pathError("open", path, eisdir)}
+		}
+		if fl == nil {
+			if flags&oCREATE == 0 {
+				return tuple{nilFile, i.pathError("open", path, enoent)}
+			}
+			fl = &fsFile{}
+			e.files[path] = fl
+		} else if flags&oEXCL != 0 && flags&oCREATE != 0 {
+			return tuple{nilFile, i.pathError("open", path, 17)}
+		}
+		if flags&oTRUNC != 0 {
+			fl.data, fl.doc = nil, nil
+		}
+		var cell value = zero(osp.Type("File").Type())
+		fp := &cell
+		if e.open == nil {
+			e.open = map[*value]*openFile{}
+		}
+		of := &openFile{path: path, data: fl.data, writable: flags&(oWRONLY|oRDWR) != 0}
+		if flags&oAPPEND != 0 {
+			of.pos = len(fl.data)
+		}
+		e.open[fp] = of
+		e.writes[path]++
+		return tuple{fp, iface{}}
+	}
+	write := func(fr *frame, a []value) value {
+		i := fr.i
+		e := i.env
+		of := i.fileObj(a[0])
+		var data []value
+		if isStrVal(a[1]) {
+			data = strBytes(a[1])
+		} else {
+			data = a[1].([]value)
+		}
+		if !of.writable {
+			return tuple{0, i.pathError("write", of.path, 9)}
+		}
+		fl := e.file(of.path)
+		if fl == nil {
+			fl = &fsFile{}
+			e.files[of.path] = fl
+		}
+		n := len(data)
+		k := n
+		plan := e.writePlans["*"]
+		killed := false
+		if len(plan) > 0 && plan[0].mode != 0 {
+			// file-size limit L: bytes beyond offset L are not written
+			room := n
+			lt := i.term(plan[0].k)
+			if !i.decide(i.st.SLe(i.st.BV(64, uint64(of.pos+n)), lt), "write fits under the size limit") {
+				if i.decide(i.st.SLe(lt, i.st.BV(64, uint64(of.pos))), "size limit at or below the offset") {
+					room = 0
+				} else {
+					room = int(i.concInt(plan[0].k, int64(of.pos), int64(of.pos+n-1), "size limit inside the write")) - of.pos
+				}
+			}
+			k = room
+			killed = plan[0].mode == 2 && k < n
+		}
+		// overwrite in place at pos, extending the file as needed
+		nd := append([]value(nil), fl.data...)
+		for len(nd) < of.pos {
+			nd = append(nd, uint8(0))
+		}
+		for j := 0; j < k; j++ {
+			if of.pos+j < len(nd) {
+				nd[of.pos+j] = data[j]
+			} else {
+				nd = append(nd, data[j])
+			}
+		}
+		// document identity survives only a complete, exactly-fitting write of one token
+		var doc *docToken
+		if tr, ok := e.tokenOf[sliceKey(data)]; ok && tr.n == n && of.pos == 0 && k == n && len(nd) == n {
+			doc = tr.doc
+		}
+		fl.data, fl.doc = nd, doc
+		of.pos += k
+		of.data = nd
+		if killed {
+			panic(targetPanic{iface{i.runtimeErrorString, "verif: process killed during write of " + of.path}})
+		}
+		if k < n {
+			return tuple{k, i.pathError("write", of.path, 27)}
+		}
+		return tuple{n, iface{}}
+	}
+	externals["(*os.File).Write"] = write
+	externals["(*os.File).WriteString"] = write
+	externals["(*os.File).Sync"] = func(fr *frame, a []value) value { return iface{} }
+	externals["(*os.File).Name"] = func(fr *frame, a []value) value { return fr.i.fileObj(a[0]).path }
+	externals["(*os.File).Chmod"] = func(fr *frame, a []value) value { return iface{} }
 }
